@@ -15,6 +15,7 @@ CONSTANTS
   Record = TRUE
   MaxSteps = 30
   Sample = TRUE
+  Variant = "base"
 INVARIANT ExportDone
 INVARIANT QuotaExact
 INVARIANT CostExact
